@@ -64,7 +64,12 @@ def main():
         rc2, out2 = sh(demo, cwd=wt, env=env, timeout=3600)
         conf["demo_without_patch_rc"] = rc2
         conf["demo_without_patch_tail"] = out2[-600:]
-        conf["confirmed"] = bool(conf["existing_tests_ok"] and rc1 != 0 and rc2 == 0)
+        # a demo command may end with a clean-up step, so also look at the test harness's verdict
+        fail1 = rc1 != 0 or "test result: FAILED" in out1
+        fail2 = rc2 != 0 or "test result: FAILED" in out2
+        conf["demo_fails_with_patch"] = fail1
+        conf["demo_passes_without_patch"] = (not fail2) and ("test result: ok" in out2 or rc2 == 0)
+        conf["confirmed"] = bool(conf["existing_tests_ok"] and fail1 and conf["demo_passes_without_patch"])
     finally:
         dst = os.path.join(V, "seeded", sid)
         os.makedirs(dst, exist_ok=True)
